@@ -1,4 +1,5 @@
 import GoSQLXModel.Model.Scan
+import GoSQLXModel.Proofs.ScanThreshold
 import GoSQLXModel.Props.C14
 import GoSQLXModel.Gen.ScanTables
 /-!
@@ -15,6 +16,10 @@ import GoSQLXModel.Gen.ScanTables
   findings.  Coverage of parser-produced trees is C14's obligation (`Props.C14.gen_children_complete_partial`),
   so the C14 known findings (WindowFrame bounds) are exactly the positions this theorem does not reach.
 * `Scan.threshold`, `Scan.counts_consistent`: threshold filtering and counters, for every tree.
+* `threshold_only_removes`, `nothing_below_threshold`, `threshold_applied_twice`, `counters_below_threshold_zero`
+  (Proofs/ScanThreshold.lean): raising the threshold yields a sublist — same order, nothing added — of the result
+  under any lower one; no reported finding ranks below the threshold; filtering a result again equals scanning with
+  the higher threshold; the counter of every severity below the threshold is zero.
 * table obligations (regenerated): the node types the Inspect callback dispatches on are the ones the model
   checks, the callback never prunes, every `Finding` literal of the checks has the documented (pattern, severity)
   and is appended under `shouldInclude`, `severityOrder` is strictly LOW < MEDIUM < HIGH < CRITICAL, and the
@@ -149,5 +154,19 @@ def nested : Val :=
 
 example : nested.covered genTable none = true := by decide +kernel
 example : scan .ascii genCfg genTable .critical nested = [⟨"TAUTOLOGY", .critical⟩] := by decide +kernel
+
+theorem threshold_only_removes (cls : CharClass) (a b : Sev) (tree : Val) (h : a.rank ≤ b.rank) :
+    (scan cls genCfg genTable b tree).Sublist (scan cls genCfg genTable a tree) := threshold_mono cls genCfg genTable a b tree h
+
+theorem nothing_below_threshold (cls : CharClass) (min : Sev) (tree : Val) :
+    ∀ f ∈ scan cls genCfg genTable min tree, min.rank ≤ f.sev.rank := scan_min_rank cls genCfg genTable min tree
+
+theorem threshold_applied_twice (cls : CharClass) (a b : Sev) (tree : Val) (h : a.rank ≤ b.rank) :
+    (scan cls genCfg genTable a tree).filter (keep b) = scan cls genCfg genTable b tree :=
+  threshold_twice cls genCfg genTable a b tree h
+
+theorem counters_below_threshold_zero (cls : CharClass) (min s : Sev) (tree : Val) (h : s.rank < min.rank) :
+    ((scan cls genCfg genTable min tree).filter (·.sev == s)).length = 0 :=
+  counts_below_zero cls genCfg genTable min s tree h
 
 end GoSQLXModel.Props.C16
